@@ -10,6 +10,7 @@ import (
 	"bytes"
 	"encoding/json"
 	"fmt"
+	"io/ioutil"
 	"math"
 	"math/rand"
 	"net"
@@ -43,6 +44,9 @@ type opIn struct {
 	// Host is -1), recorded Rec times on connection 0; every Record sends
 	// Name_wall, Name_system and Name_user with values the harness cannot know
 	Rec int `json:"rec,omitempty"`
+	// measures / wires: the block of values Vals recorded Rec times in a row
+	// under Name from Host (through Monitor.update / over connection Conn)
+	Vals []float64 `json:"vals,omitempty"`
 }
 
 type input struct {
@@ -54,6 +58,12 @@ type input struct {
 	// CountOnly: recorded values are not known (time measures); compare counts,
 	// measure sets per result set and the CSV layout only (Coq: CaseN)
 	CountOnly bool `json:"count_only,omitempty"`
+	// Readers: that many goroutines loop on read-outs (String, Collect,
+	// WriteValues, bucket Get) WHILE the measures are recorded; they are stopped
+	// before the read-outs listed in Ops. The model does not contain them: by
+	// c19_concurrent_readers_irrelevant read-outs interleaved in any way with the
+	// recording change nothing that is reported afterwards.
+	Readers int `json:"readers,omitempty"`
 }
 
 // ---------------------------------------------------------------- observations
@@ -149,6 +159,41 @@ var timeSuffixes = []string{"_wall", "_system", "_user"}
 
 // coqOps: the model operations of one input operation (a recorded time
 // measure is three wire measures per Record, values unknown: 0)
+// coqSeg: Coq list expressions for the model operations of one input
+// operation and for the observations of those that return nothing
+func (o opIn) coqSeg() (ops string, nobs string, ok bool) {
+	if o.Op != "measures" && o.Op != "wires" {
+		return "", "", false
+	}
+	one := "measure"
+	if o.Op == "wires" {
+		one = "wire"
+	}
+	blk := make([]string, len(o.Vals))
+	for i, v := range o.Vals {
+		blk[i] = opIn{Op: one, Name: o.Name, V: v, Host: o.Host}.coq()
+	}
+	return lib.App("rep_ops", lib.Nat(o.Rec), lib.List(blk)), lib.App("rep_none", lib.Nat(o.Rec), lib.Nat(len(o.Vals))), true
+}
+
+// expand: the single measures of a measures / wires operation
+func (o opIn) expand() []opIn {
+	if o.Op != "measures" && o.Op != "wires" {
+		return []opIn{o}
+	}
+	one := "measure"
+	if o.Op == "wires" {
+		one = "wire"
+	}
+	var l []opIn
+	for r := 0; r < o.Rec; r++ {
+		for _, v := range o.Vals {
+			l = append(l, opIn{Op: one, Name: o.Name, V: v, Host: o.Host, Conn: o.Conn})
+		}
+	}
+	return l
+}
+
 func (o opIn) coqOps() []string {
 	if o.Op != "time" {
 		return []string{o.coq()}
@@ -375,9 +420,18 @@ func runTCP(in input) (outs []outObs, notes []string) {
 	per := make([][]wireMeasure, nconn)
 	raw := make([][]string, nconn) // raw[c][k] != "" : send these bytes instead of per[c][k]
 	trec := make([][]int, nconn)   // trec[0][k] > 0 : a TimeMeasure recorded that many times
-	for ; i < len(in.Ops) && (in.Ops[i].Op == "wire" || in.Ops[i].Op == "wirebad" || in.Ops[i].Op == "time"); i++ {
+	for ; i < len(in.Ops) && (in.Ops[i].Op == "wire" || in.Ops[i].Op == "wirebad" || in.Ops[i].Op == "time" || in.Ops[i].Op == "wires"); i++ {
 		o := in.Ops[i]
 		c := o.Conn % nconn
+		if o.Op == "wires" {
+			for _, e := range o.expand() {
+				per[c] = append(per[c], wireMeasure{e.Name, e.V, e.Host})
+				trec[c] = append(trec[c], 0)
+				raw[c] = append(raw[c], "")
+			}
+			outs = append(outs, outObs{Kind: "none"})
+			continue
+		}
 		if o.Op == "wirebad" && c == 0 {
 			panic("harness: connection 0 uses the client API and cannot carry raw bytes")
 		}
@@ -402,8 +456,13 @@ func runTCP(in input) (outs []outObs, notes []string) {
 	// the environment: loopback, ephemeral port, private network namespace): the
 	// operations that would have read the results report it instead.
 	connected := false
+	var rd *readers
 	fail := func(why string) ([]outObs, []string) {
 		transportFailed = true
+		if rd != nil {
+			rd.halt()
+			rd = nil
+		}
 		if connected {
 			monitor.EndAndCleanup()
 		}
@@ -446,6 +505,9 @@ func runTCP(in input) (outs []outObs, notes []string) {
 			return fail(fmt.Sprintf("only %d of %d reporting connections registered", w.mon.VerifConns(), nconn))
 		}
 		time.Sleep(time.Millisecond)
+	}
+	if in.Readers > 0 {
+		rd = w.startReaders(in.Readers, bucketIdx(in))
 	}
 	done := make(chan string, nconn)
 	go func() {
@@ -503,21 +565,150 @@ func runTCP(in input) (outs []outObs, notes []string) {
 	case <-time.After(transportDeadline()):
 		return fail("Listen did not return after every reporting connection was closed")
 	}
+	if rd != nil {
+		if crash, blocked := rd.halt(); crash != "" || blocked {
+			k := "crash"
+			if crash == "" {
+				k = "deadlock"
+			}
+			for len(outs) < len(in.Ops) {
+				outs = append(outs, outObs{Kind: k, Panic: "concurrent reader: " + crash})
+			}
+			return outs, notes
+		}
+	}
 	for ; i < len(in.Ops); i++ {
 		outs = append(outs, w.guarded(in.Ops[i]))
 	}
 	return outs, notes
 }
 
+// readers: n goroutines looping on the read-out entry points of the global
+// result set and of the buckets until stopped. A panic of the code under test in
+// a reader is reported through the returned channel.
+type readers struct {
+	stop    chan struct{}
+	stopped chan string
+	n       int
+}
+
+func (w *world) startReaders(n int, bidx []int) *readers {
+	r := &readers{stop: make(chan struct{}), stopped: make(chan string, n), n: n}
+	for k := 0; k < n; k++ {
+		go func(k int) {
+			msg := ""
+			defer func() {
+				if p := recover(); p != nil {
+					msg = fmt.Sprint(p)
+				}
+				r.stopped <- msg
+			}()
+			for it := 0; ; it++ {
+				select {
+				case <-r.stop:
+					return
+				default:
+				}
+				switch (k + it) % 4 {
+				case 0:
+					_ = w.objs[0].String()
+				case 1:
+					w.objs[0].Collect()
+				case 2:
+					w.objs[0].WriteValues(ioutil.Discard)
+				default:
+					if len(bidx) > 0 {
+						if s := w.mon.VerifBucket(bidx[it%len(bidx)]); s != nil {
+							_ = s.String()
+						}
+					} else {
+						w.objs[0].Collect()
+					}
+				}
+			}
+		}(k)
+	}
+	return r
+}
+
+// halt stops the readers; "" when all returned, else what went wrong
+func (r *readers) halt() (crash string, blocked bool) {
+	close(r.stop)
+	for k := 0; k < r.n; k++ {
+		select {
+		case m := <-r.stopped:
+			if m != "" {
+				crash = m
+			}
+		case <-time.After(blockDeadline):
+			return crash, true
+		}
+	}
+	return crash, false
+}
+
+func bucketIdx(in input) []int {
+	var l []int
+	for _, o := range in.Ops {
+		if o.Op == "bucket" {
+			l = append(l, o.Idx)
+		}
+	}
+	return l
+}
+
+func isRecording(op string) bool {
+	return op == "measure" || op == "measures" || op == "direct"
+}
+
 func runAPI(in input) []outObs {
 	w := newWorld(in)
 	var outs []outObs
-	for _, o := range in.Ops {
-		r := w.guarded(o)
+	var rd *readers
+	for i, o := range in.Ops {
+		if in.Readers > 0 && rd == nil && isRecording(o.Op) {
+			rd = w.startReaders(in.Readers, bucketIdx(in))
+		}
+		var r outObs
+		if o.Op == "measures" {
+			// the block, recorded Rec times, in this goroutine (the readers run meanwhile)
+			r = func() (res outObs) {
+				defer func() {
+					if p := recover(); p != nil {
+						res = outObs{Kind: "crash", Panic: fmt.Sprint(p)}
+					}
+				}()
+				for k := 0; k < o.Rec; k++ {
+					for _, v := range o.Vals {
+						w.mon.VerifUpdate(o.Name, v, o.Host)
+					}
+				}
+				return outObs{Kind: "none"}
+			}()
+		} else {
+			if rd != nil && !isRecording(o.Op) {
+				// recording is over: the readers are stopped before the listed read-outs
+				crash, blocked := rd.halt()
+				rd = nil
+				if crash != "" || blocked {
+					k := "crash"
+					if crash == "" {
+						k = "deadlock"
+					}
+					outs = append(outs, outObs{Kind: k, Panic: "concurrent reader: " + crash})
+					break
+				}
+			}
+			r = w.guarded(o)
+		}
+		_ = i
 		outs = append(outs, r)
 		if r.Kind == "crash" || r.Kind == "deadlock" {
 			break
 		}
+	}
+	if rd != nil {
+		rd.halt()
 	}
 	return outs
 }
@@ -565,7 +756,11 @@ func classify(in input) (reread, negmax bool) {
 		}
 		collect(s)
 	}
+	var flat []opIn
 	for _, o := range in.Ops {
+		flat = append(flat, o.expand()...)
+	}
+	for _, o := range flat {
 		switch o.Op {
 		case "new":
 			objs = append(objs, mk())
@@ -671,16 +866,36 @@ func run(raw json.RawMessage) lib.Case {
 	for i, kv := range in.Statics {
 		st[i] = lib.Pair(lib.Str(kv[0]), lib.Str(kv[1]))
 	}
+	// the operation and observation lists as Coq list expressions, long runs
+	// of measures in the compact form  rep_ops n block / rep_none n len
 	var ops, obs []string
+	var opSegs, obSegs []string
+	flush := func() {
+		if len(ops) > 0 {
+			opSegs = append(opSegs, lib.List(ops))
+			obSegs = append(obSegs, lib.List(obs))
+			ops, obs = nil, nil
+		}
+	}
 	human := []interface{}{}
 	nontrivial := false
 	failed := false
 	for i, o := range in.Ops {
-		l := o.coqOps()
-		ops = append(ops, l...)
-		obs = append(obs, outs[i].coq())
-		for k := 1; k < len(l); k++ {
-			obs = append(obs, "ObsNone")
+		if seg, none, ok := o.coqSeg(); ok {
+			flush()
+			opSegs = append(opSegs, seg)
+			if outs[i].Kind == "none" {
+				obSegs = append(obSegs, none)
+			} else {
+				obSegs = append(obSegs, lib.App("repeat", outs[i].coq(), fmt.Sprintf("(%d * %d)", o.Rec, len(o.Vals))))
+			}
+		} else {
+			l := o.coqOps()
+			ops = append(ops, l...)
+			obs = append(obs, outs[i].coq())
+			for k := 1; k < len(l); k++ {
+				obs = append(obs, "ObsNone")
+			}
 		}
 		if outs[i].Kind != "none" && !failed {
 			human = append(human, map[string]interface{}{"op": i, "kind": o.Op, "out": outs[i].human()})
@@ -694,16 +909,27 @@ func run(raw json.RawMessage) lib.Case {
 	for _, n := range notes {
 		human = append(human, map[string]interface{}{"harness_note": n})
 	}
+	flush()
 	ctor := "Case"
 	if in.CountOnly {
 		ctor = "CaseN"
 	}
 	return lib.Case{
-		Coq:        lib.App(ctor, lib.List(st), lib.List(ops), lib.List(obs)),
+		Coq:        lib.App(ctor, lib.List(st), joinSegs(opSegs), joinSegs(obSegs)),
 		Class:      class,
 		Obs:        human,
 		Nontrivial: nontrivial,
 	}
+}
+
+func joinSegs(segs []string) string {
+	if len(segs) == 0 {
+		return "[]"
+	}
+	if len(segs) == 1 {
+		return segs[0]
+	}
+	return "(" + strings.Join(segs, " ++ ") + ")%list"
 }
 
 // ---------------------------------------------------------------- generator
@@ -1146,6 +1372,60 @@ func genTCPTime(rng *rand.Rand) input {
 	return in
 }
 
+// Read-outs running CONCURRENTLY with the recording: reader goroutines loop on
+// String / Collect / WriteValues / bucket Get while a few thousand measures are
+// recorded (directly through Monitor.update, or as JSON over TCP connections);
+// then the readers are stopped and the result sets are written. Nothing
+// recorded may be missing: the written statistics are those of ALL measures.
+func genConcurrent(rng *rand.Rand, tcp bool) input {
+	in := input{Kind: "concurrent", Mode: "api", Statics: statics(rng), Readers: 2 + rng.Intn(3)}
+	one := "measures"
+	if tcp {
+		in.Kind, in.Mode, one = "tcp-concurrent", "tcp", "wires"
+		in.Conns = 2 + rng.Intn(3)
+	}
+	var bidx []int
+	for b := rng.Intn(3); b > 0; b-- {
+		lo := rng.Intn(3)
+		in.Ops = append(in.Ops, opIn{Op: "bucket", Idx: len(bidx), Rules: []string{fmt.Sprintf("%d:%d", lo, lo+1+rng.Intn(3))}})
+		bidx = append(bidx, len(bidx))
+	}
+	nn := 1 + rng.Intn(2)
+	perm := rng.Perm(len(names))
+	total := 2200 + rng.Intn(800)
+	nblk := 2 + rng.Intn(3)
+	if tcp {
+		nblk = in.Conns + rng.Intn(2)
+	}
+	var blocks []opIn
+	for b := 0; b < nblk; b++ {
+		kind := []int{0, 1, 2, 8}[rng.Intn(4)] // short mantissas keep the exact arithmetic cheap
+		vals := make([]float64, 4+rng.Intn(5))
+		for i := range vals {
+			vals[i] = genValue(rng, kind)
+		}
+		name := names[perm[b%nn]]
+		if tcp && strings.HasPrefix(strings.ToLower(name), "end") {
+			name = "x" + name
+		}
+		blocks = append(blocks, opIn{Op: one, Name: name, Host: rng.Intn(5) - 1, Vals: vals,
+			Rec: total / nblk / len(vals), Conn: b % maxInt(in.Conns, 1)})
+	}
+	if tcp {
+		sort.SliceStable(blocks, func(a, b int) bool { return blocks[a].Conn < blocks[b].Conn })
+	}
+	in.Ops = append(in.Ops, blocks...)
+	in.Ops = append(in.Ops, finalReads(len(bidx), bidx, rng)...)
+	return in
+}
+
+func maxInt(a, b int) int {
+	if a > b {
+		return a
+	}
+	return b
+}
+
 // every sequence of at most maxLen read-out operations before the final write
 func exhaustiveReadouts(vals []float64, maxLen int) []interface{} {
 	kinds := []string{"collect", "string", "header", "values"}
@@ -1214,7 +1494,28 @@ func generate(rng *rand.Rand, tier string) []interface{} {
 	for i := 0; i < 24*scale; i++ {
 		ins = append(ins, genTCPTime(rng))
 	}
-	return ins
+	// the long concurrent histories are spread evenly over the run (and so over
+	// the Coq shards, which are evaluated in parallel)
+	var heavy []interface{}
+	nh := 12
+	if tier != "quick" {
+		nh = 80
+	}
+	for i := 0; i < nh; i++ {
+		heavy = append(heavy, genConcurrent(rng, i%2 == 1))
+	}
+	step := len(ins) / (len(heavy) + 1)
+	var out []interface{}
+	h := 0
+	for i, x := range ins {
+		out = append(out, x)
+		if step > 0 && (i+1)%step == 0 && h < len(heavy) {
+			out = append(out, heavy[h])
+			h++
+		}
+	}
+	out = append(out, heavy[h:]...)
+	return out
 }
 
 // refutation witnesses and regression inputs (always run first)
@@ -1293,7 +1594,7 @@ func main() {
 		Prop:     "C19",
 		Import:   "Onet.Corr.C19",
 		Rule:     "history on the real simul/monitor code vs the Gallina state machine; exact statistics of the recorded values vs the reported ones",
-		Shard:    60,
+		Shard:    30,
 		Generate: generate,
 		Run:      run,
 		Corpus:   corpus,
